@@ -7,6 +7,7 @@ import (
 	"strings"
 
 	gpb "github.com/openconfig/gnmi/proto/gnmi"
+	"github.com/openconfig/goyang/pkg/yang"
 	"github.com/openconfig/ygot/ytypes"
 	"github.com/openconfig/ygot/zzverif/core"
 	"google.golang.org/protobuf/proto"
@@ -35,6 +36,12 @@ func c10Check(p *core.Pkg, atoms []*core.Atom, a *core.Atom, enc string) (string
 	if err != nil {
 		return "", ""
 	}
+	var setOpts []ytypes.SetNodeOpt
+	if strings.HasSuffix(enc, "+tolerate") {
+		// TolerateJSONInconsistencies widens what is accepted; what a type-correct payload stores must not change
+		enc = strings.TrimSuffix(enc, "+tolerate")
+		setOpts = append(setOpts, &ytypes.TolerateJSONInconsistencies{})
+	}
 	if strings.HasSuffix(enc, "+shared") {
 		// equal leaves share one variable (user code filling entries from a template): see core.ShareLeafPointers
 		enc = strings.TrimSuffix(enc, "+shared")
@@ -54,7 +61,7 @@ func c10Check(p *core.Pkg, atoms []*core.Atom, a *core.Atom, enc string) (string
 	g := a.Path.GNMI()
 	tv := c10Value(a, enc)
 	g0, tv0 := proto.Clone(g), proto.Clone(tv)
-	if err := safeSet(p, t, g, tv, &ytypes.InitMissingElements{}); err != nil {
+	if err := safeSet(p, t, g, tv, append([]ytypes.SetNodeOpt{&ytypes.InitMissingElements{}}, setOpts...)...); err != nil {
 		if len(err.Error()) >= 5 && err.Error()[:5] == "PANIC" {
 			return "set-panic:", err.Error()
 		}
@@ -129,7 +136,12 @@ func runC10(c *core.Ctx) {
 				cands = core.FocusAtoms(sets)
 			}
 			for _, a := range cands {
-				for _, enc := range c10Encs {
+				encs := c10Encs
+				if a.Entry != nil && a.Entry.Type != nil && (a.Entry.Type.Kind == yang.Yunion || a.Entry.Type.Kind == yang.Yenum || a.Entry.Type.Kind == yang.Yidentityref) && len(st.Seq) <= 1 {
+					// leaves whose decoding depends on the encoding mode (enum names, union member resolution): also with the tolerant mode
+					encs = []string{"scalar", "json_ietf", "scalar+tolerate", "json_ietf+tolerate"}
+				}
+				for _, enc := range encs {
 					c.R.Add("evaluations", 1)
 					c.R.Add("transitions", 1)
 					sig, detail := c10Check(p, atoms, a, enc)
